@@ -4,6 +4,7 @@ import TF.Proofs.MmrUpdAppend
 import TF.Proofs.MmrUpdAppendBatch
 import TF.Proofs.MmrUpdMutate
 import TF.Proofs.MmrBatchMutate
+import TF.Proofs.GenBridgeMmrProof
 /-!
 # C05 — MMR membership proofs stay exact through every history; verification exact
 
@@ -522,5 +523,72 @@ theorem history_preserves_proofs : history_preserves_proofs_statement :=
 example : validHistory (D := Nat) (0, fun _ => 0)
     [.append 1, .append 2, .append 3, .mutate 1 7, .batch [(2, 9), (0, 4)], .append 5] := by
   simp [validHistory, leavesStep]
+
+
+/-! ## regenerated-from-source bridge (BT7)
+
+`MmrMembershipProof::{verify, get_node_indices, get_direct_path_indices, get_peak_index_and_height}`
+(`mmr_membership_proof.rs`) are regenerated from the source text on every run into `TF/Gen/MmrProofLoops.lean`
+(`tools/rs2lean_mmr.py`): digests opaque (`D`), `Tip5::hash_pair` the parameter `H`, `d0` the value read after a panic
+(the `_ok` twin is false there), a membership proof = its field `authentication_path`; the index functions they call are
+the regenerated ones of `TF/Gen/MmrIndex.lean` / `TF/Gen/MmrLoops.lean`.  `outcome ok v = if ok then v else none` turns the
+pair (`_ok` flag, value) into the hand model's convention (`none` = panic).  Proofs: `TF/Proofs/GenBridgeMmrProof.lean`. -/
+section GenBridge
+open TF.GenBridge.MmrPeaks (outcome outcome_eq_some)
+open TF.Gen.Loops (mmrmp_verify mmrmp_verify_ok mmrmp_get_node_indices mmrmp_get_direct_path_indices
+  mmrmp_get_peak_index_and_height)
+
+/-- regenerated `MmrMembershipProof::verify` (bounds check, `peaks.len().try_into::<u32>().unwrap()`, peak-count check,
+    path-length check `mt_index.ilog2() != len`, the `while mt_index != 1` fold indexing the path, `peaks[peak_index]`,
+    the final comparison) = hand model; every `H`, every path / index / leaf / peak list, every `u64` leaf count -/
+theorem gen_member_verify_eq_model (d0 : D) (path : List D) (i : Nat) (leaf : D) (pks : List D) (n : Nat)
+    (hn : n < 2 ^ 64) (hap : path.length < 2 ^ 64) :
+    outcome (mmrmp_verify_ok H d0 path i leaf pks n) (mmrmp_verify H d0 path i leaf pks n)
+      = memberVerify H path i leaf pks n :=
+  TF.GenBridge.MmrProof.gen_member_verify_eq H d0 path i leaf pks n hn hap
+/-- non-vacuity: an accepted claim (leaf 1 of 3, path `[1]`), a rejected one (path too long: the `!=` of the path-length
+    check), one that would index past the path if the length check were weakened to `>` (path too short) -/
+example : let H := fun a b : Nat => a * 10 + b
+    mmrmp_verify H 0 [1] 1 7 [17, 3] 3 = some true ∧ mmrmp_verify_ok H 0 [1] 1 7 [17, 3] 3 = true ∧
+    mmrmp_verify H 0 [1, 1] 1 7 [17, 3] 3 = some false ∧ mmrmp_verify H 0 [] 1 7 [17, 3] 3 = some false ∧
+    mmrmp_verify_ok H 0 [] 1 7 [17, 3] 3 = true ∧
+    memberVerify H [] 1 7 [17, 3] 3 = some false := by decide +kernel
+
+/-- regenerated `get_node_indices`, `get_direct_path_indices`, `get_peak_index_and_height` = hand models, every input
+    (the index functions they call are the regenerated `leaf_index_to_node_index`, `right_lineage_length_and_own_height`,
+    `left_sibling`, `right_sibling`, `parent`; release arithmetic on both sides; `last().unwrap()` on an empty vector is
+    a panic) -/
+theorem gen_member_index_helpers_eq_model (d0 : D) (path : List D) (li : Nat) :
+    mmrmp_get_node_indices H d0 path li = TF.Model.Mmr.get_node_indices li path.length ∧
+    mmrmp_get_direct_path_indices H d0 path li = TF.Model.Mmr.get_direct_path_indices li path.length ∧
+    outcome ((mmrmp_get_direct_path_indices H d0 path li).elim true fun l => !l.isEmpty)
+        (mmrmp_get_peak_index_and_height H d0 path li) = getPeakIndexAndHeight path li :=
+  ⟨TF.GenBridge.MmrProof.gen_get_node_indices_eq H d0 path li,
+   TF.GenBridge.MmrProof.gen_get_direct_path_indices_eq H d0 path li,
+   TF.GenBridge.MmrProof.gen_get_peak_index_and_height_eq H d0 path li⟩
+example : mmrmp_get_node_indices (fun a b : Nat => a + b) 0 [0, 0] 2 = some [5, 3] ∧
+    mmrmp_get_direct_path_indices (fun a b : Nat => a + b) 0 [0, 0] 2 = some [4, 6, 7] ∧
+    mmrmp_get_peak_index_and_height (fun a b : Nat => a + b) 0 [0, 0] 2 = some (7, 2) := by decide +kernel
+
+/-- **transfer** of `verify_iff` and `verify_total` to the code as it is in the source now: for every `u64` leaf count,
+    every peak list shorter than 2^32 and every path, the regenerated `verify` does not panic (its `_ok` flag is true),
+    terminates within its fuel, and answers `true` exactly when the index is in range, the number of peaks matches, the
+    path length is the height of the leaf's tree and the fold of the leaf up the path is the covering peak -/
+theorem gen_verify_transfer (d0 : D) (path : List D) (i : Nat) (leaf : D) (pks : List D) (n : Nat) (hn : n < 2 ^ 64)
+    (hlen : pks.length < 2 ^ 32) (hap : path.length < 2 ^ 64) :
+    mmrmp_verify_ok H d0 path i leaf pks n = true ∧
+    (∃ b, mmrmp_verify H d0 path i leaf pks n = some b) ∧
+    (mmrmp_verify H d0 path i leaf pks n = some true ↔
+      i < n ∧ pks.length = TF.popCount n ∧ path.length = (locate n i).1 ∧
+      pks[(locate n i).2.2]? = some (foldBlk H i leaf path)) := by
+  have hg := gen_member_verify_eq_model H d0 path i leaf pks n hn hap
+  obtain ⟨b, hb⟩ := verify_total H path i leaf pks n hn hlen
+  rw [hb] at hg
+  obtain ⟨h1, h2⟩ := outcome_eq_some hg
+  refine ⟨h1, ⟨b, h2⟩, ?_⟩
+  rw [← verify_iff H path i leaf pks n hn hlen, hb, h2]
+example : (18446744073709551615 : Nat) < 2 ^ 64 ∧ ([] : List Nat).length < 2 ^ 32 := by decide
+
+end GenBridge
 
 end TF.C05
